@@ -110,9 +110,9 @@ pub fn run(r: &mut Report) {
     }
     // several functionaries of one step file the SAME delegated layout (threshold 2): each one's own sub-directory must pass on its own
     #[derive(Clone, Copy, Debug)]
-    enum Second { Complete, InnerMissing, InnerUnauthorised, InnerInParentDir, InnerOnlyInFirstDir, InnerFailsRule }
+    enum Second { Complete, InnerMissing, InnerUnauthorised, InnerInParentDir, InnerOnlyInFirstDir, InnerFailsRule, InnerDissent }
     for which in [0usize, 1] {
-        for f in [Second::Complete, Second::InnerMissing, Second::InnerUnauthorised, Second::InnerInParentDir, Second::InnerOnlyInFirstDir, Second::InnerFailsRule] {
+        for f in [Second::Complete, Second::InnerMissing, Second::InnerUnauthorised, Second::InnerInParentDir, Second::InnerOnlyInFirstDir, Second::InnerFailsRule, Second::InnerDissent] {
             let d = tmpdir();
             let inner_rule = vec![in_toto::models::rule::ArtifactRule::Create("z".into()), in_toto::models::rule::ArtifactRule::Disallow("*".into())];
             let sub = layout(vec![step("inner", 1, &[&kb], allow_all(), inner_rule)], vec![], &[&kb], 30);
@@ -129,6 +129,8 @@ pub fn run(r: &mut Report) {
                     (true, Second::InnerMissing) | (true, Second::InnerOnlyInFirstDir) => {}
                     (true, Second::InnerUnauthorised) => write_link(&subdir, "inner", kc.key_id(), &signed_link(&link("inner", &[], &[("z", 7)]), &[&kc])),
                     (true, Second::InnerInParentDir) => write_link(d.path(), "inner", kb.key_id(), &good),
+                    // rule-conforming evidence that differs from the other functionary's: the two summaries disagree (C07)
+                    (true, Second::InnerDissent) => write_link(&subdir, "inner", kb.key_id(), &signed_link(&link("inner", &[], &[("z", 9)]), &[&kb])),
                     (true, Second::InnerFailsRule) => write_link(&subdir, "inner", kb.key_id(), &signed_link(&link("inner", &[], &[("z", 7), ("stray", 8)]), &[&kb])),
                 }
             }
